@@ -1,7 +1,7 @@
 """C18 - parse calls are isolated from each other (frame / ownership obligations; schedules are NOT explored)."""
 from contracts import rt_run, rt_final, bind
 from pyvc.report import Report
-from .common import run_rt, run_fragments
+from .common import run_rt, run_fragments, dependency_layer
 from . import wiring
 
 
@@ -19,4 +19,5 @@ def run(tier, seed):
     rep.assumptions.append('A-noninterf: disjoint write frames => no interference between activations (sequential, nested, abandoned, concurrent) is a paper argument; '
                            'compiled re patterns are immutable and thread-safe; user code is pure and does not inject shared parsed objects into results')
     rep.assumptions.append('noted, outside the statement: ParsedObject.__hash__ publishes a transient _hash = 0 before the real value (concurrent hash() of one shared object)')
+    dependency_layer(rep, tier)
     return rep.finish()
